@@ -617,6 +617,8 @@ impl World for StreamWorld {
     }
     fn execute(&self, plan: &Plan, stats: &mut Stats) -> Outcome {
         let mut log = LogHash::new();
+        // Calibrate before anything of this run is numbered or counted.
+        let _ = crate::w_codec::arena_large_granule();
         let base = (ByteArena::num_live_chunks(), ByteArena::num_live_bytes(), owning_iovec::verif::live_totals());
         let mut vs: Vec<V> = Vec::new();
         let c = cfg(plan);
